@@ -139,7 +139,7 @@ impl<'a> TransportFeedback<'a> {
         if parser::parse_count(self.data) != F::FCI_FORMAT {
             return Err(RtcpParseError::WrongImplementation);
         }
-        F::parse(&self.data[12..])
+        F::parse(&self.data[12..self.data.len() - self.padding().unwrap_or(0) as usize])
     }
 }
 
@@ -335,7 +335,7 @@ impl<'a> PayloadFeedback<'a> {
         if parser::parse_count(self.data) != F::FCI_FORMAT {
             return Err(RtcpParseError::WrongImplementation);
         }
-        F::parse(&self.data[12..])
+        F::parse(&self.data[12..self.data.len() - self.padding().unwrap_or(0) as usize])
     }
 }
 
